@@ -354,6 +354,8 @@ pub struct Proc {
     pub exit_at: Option<u64>,
     pub exit_seq: Option<u64>,
     pub reaped_by: Option<Ent>,
+    /// event sequence number at which it was reaped
+    pub reaped_seq: u64,
     pub signals_got: Vec<(i32, Ent)>,
     pub escaped: Option<String>,
     pub launch_failed: bool,
@@ -420,6 +422,11 @@ pub struct FaultPlan {
     /// (EPERM: the child runs under another identity and the caller has lost the right to signal it)
     #[serde(default)]
     pub kill_fail: Option<(u32, i32)>,
+    /// a fatal signal sent by the parent takes this long to turn the target into a zombie (it is
+    /// delivered when the target next runs; a big process is not torn down in an instant):
+    /// kill() has returned, the child is doomed, but waitpid(WNOHANG) does not see it yet
+    #[serde(default)]
+    pub kill_lag_ns: u64,
 }
 
 #[derive(Clone, Debug, Default)]
@@ -1250,6 +1257,7 @@ impl Kernel {
         if let Some(mut p) = self.procs.remove(&pid) {
             p.state = PState::Reaped;
             p.reaped_by = Some(by);
+            p.reaped_seq = self.seq;
             self.graveyard.push(p);
             self.touch();
         }
@@ -1341,7 +1349,9 @@ impl Kernel {
             return;
         }
         if sig == SIGKILL {
-            self.exit_proc(pid, ExitCause::Signal(SIGKILL));
+            if !self.dies_later(pid, sig, from) {
+                self.exit_proc(pid, ExitCause::Signal(SIGKILL));
+            }
             return;
         }
         if sig == SIGSTOP {
@@ -1372,7 +1382,11 @@ impl Kernel {
                 // treat as "survives"
             }
             Disp::Default => match default_action(sig) {
-                DefAct::Term | DefAct::Core => self.exit_proc(pid, ExitCause::Signal(sig)),
+                DefAct::Term | DefAct::Core => {
+                    if !self.dies_later(pid, sig, from) {
+                        self.exit_proc(pid, ExitCause::Signal(sig))
+                    }
+                }
                 DefAct::Ign | DefAct::Cont => {}
                 DefAct::Stop => {
                     self.proc_mut(pid).stopped = true;
@@ -1381,6 +1395,26 @@ impl Kernel {
                 }
             },
         }
+    }
+
+    /// `kill_lag`: the signal is fatal and comes from the parent - the target stops doing anything
+    /// and is gone a little later (it raises the same signal against itself after a nap, which
+    /// ends it with the same cause).
+    fn dies_later(&mut self, pid: i32, sig: i32, from: Ent) -> bool {
+        let lag = self.faults.kill_lag_ns;
+        if lag == 0 || !matches!(from, Ent::Par(_)) || !matches!(self.proc(pid).state, PState::Running | PState::Sleeping { .. }) {
+            return false;
+        }
+        self.fcount.hit("kill_lag");
+        let until = self.now.saturating_add(lag);
+        let p = self.proc_mut(pid);
+        p.prog = vec![crate::prog::Op::Raise { sig }, crate::prog::Op::Exit { code: 0 }];
+        p.cur = Default::default();
+        p.state = PState::Sleeping { until };
+        p.stopped = false;
+        p.stop_unreported = 0;
+        self.touch();
+        true
     }
 
     pub fn k_kill(&mut self, who: Ent, pid: i32, sig: i32) -> Result<(), i32> {
@@ -1667,6 +1701,7 @@ impl Proc {
             exit_at: None,
             exit_seq: None,
             reaped_by: None,
+            reaped_seq: 0,
             signals_got: vec![],
             escaped: None,
             launch_failed: false,
